@@ -35,6 +35,13 @@ Fixpoint del (k : str) (m : omap) : option omap :=
 
 Definition keys (m : omap) : list str := map fst m.
 
+(* OrderedDict.move_to_end(k): an existing key goes last, keeping its value *)
+Definition move_to_end (k : str) (m : omap) : omap :=
+  match get k m, del k m with
+  | Some v, Some m' => m' ++ [(k, v)]
+  | _, _ => m
+  end.
+
 Definition NoDupKeys (m : omap) : Prop := NoDup (keys m).
 
 Lemma get_set_same k v m : get k (set k v m) = Some v.
@@ -154,6 +161,55 @@ Qed.
 Lemma del_NoDupKeys k m m' : NoDupKeys m -> del k m = Some m' -> NoDupKeys m'.
 Proof.
   unfold NoDupKeys. intros H D. rewrite (keys_del _ _ _ D). apply remove_key_NoDup. assumption.
+Qed.
+
+
+(* ---- move_to_end ---- *)
+Lemma get_app_omap k (a b : omap) : get k (a ++ b) = match get k a with Some v => Some v | None => get k b end.
+Proof. induction a as [|[k' v'] r IH]; simpl; [reflexivity|]. destruct (str_eqb k k'); [reflexivity|exact IH]. Qed.
+
+Lemma get_move_to_end k k' (m : omap) : NoDupKeys m -> get k' (move_to_end k m) = get k' m.
+Proof.
+  intro Hnd. unfold move_to_end. destruct (get k m) as [v|] eqn:G; [|reflexivity].
+  destruct (del k m) as [m'|] eqn:Dl; [|reflexivity].
+  rewrite get_app_omap. destruct (str_eqb k' k) eqn:E.
+  - apply str_eqb_eq in E. subst k'. rewrite (get_del_same k m m' Hnd Dl). simpl. rewrite str_eqb_refl. symmetry. exact G.
+  - apply str_eqb_neq in E. rewrite (get_del_other k k' m m' E Dl). destruct (get k' m); [reflexivity|].
+    simpl. apply str_eqb_neq in E. rewrite E. reflexivity.
+Qed.
+
+Lemma move_to_end_NoDupKeys k (m : omap) : NoDupKeys m -> NoDupKeys (move_to_end k m).
+Proof.
+  intro Hnd. unfold move_to_end. destruct (get k m) as [v|] eqn:G; [|exact Hnd].
+  destruct (del k m) as [m'|] eqn:Dl; [|exact Hnd].
+  unfold NoDupKeys, keys. rewrite map_app. cbn [map fst]. apply NoDup_snoc.
+  - apply (del_NoDupKeys k m m' Hnd Dl).
+  - intro X. apply has_In in X. apply has_get in X as [w Hw]. rewrite (get_del_same k m m' Hnd Dl) in Hw. discriminate.
+Qed.
+
+(* a present key really ends up last, and the others keep their relative order *)
+Lemma move_to_end_last k v (m : omap) : get k m = Some v ->
+  exists m', del k m = Some m' /\ move_to_end k m = m' ++ [(k, v)].
+Proof.
+  intro G. unfold move_to_end. rewrite G. destruct (del k m) as [m'|] eqn:Dl; [eauto|].
+  apply del_none in Dl. unfold has in Dl. rewrite G in Dl. discriminate.
+Qed.
+
+Lemma keys_move_to_end k (m : omap) : has k m = true -> keys (move_to_end k m) = remove_key k (keys m) ++ [k].
+Proof.
+  unfold has. destruct (get k m) as [v|] eqn:G; [intros _|discriminate].
+  destruct (move_to_end_last k v m G) as (m' & Dl & E). rewrite E. unfold keys. rewrite map_app. cbn [map fst].
+  f_equal. apply (keys_del k m m' Dl).
+Qed.
+
+(* whenever the result holds the key at all, it holds it last (no uniqueness needed) *)
+Lemma move_to_end_has_last k (m : omap) : has k (move_to_end k m) = true ->
+  exists pre v, move_to_end k m = pre ++ [(k, v)] /\ get k m = Some v.
+Proof.
+  unfold has. destruct (get k (move_to_end k m)) as [w|] eqn:G; [intros _|discriminate].
+  destruct (get k m) as [v|] eqn:Gm.
+  - destruct (move_to_end_last k v m Gm) as (m' & _ & E). eauto.
+  - unfold move_to_end in G. rewrite Gm in G. congruence.
 Qed.
 
 End Omap.
